@@ -925,6 +925,12 @@ fn with_currencies(l: Vec<Tx>, cur: &[u8]) -> Vec<Tx> {
     l
 }
 
+/// ledgers around 2000 and 2100 (GBP only: no rates exist there): tax-year labels across a century
+fn strat_century(t: Tier) -> BoxedStrategy<Case> {
+    let mk = |lo, hi| lgen::ledger_strategy(GenCfg::basic().secs(2).days(2, t.pick(10, 16)).splits(SplitMode::Terminating).dividends(true).years(lo, hi));
+    (prop_oneof![mk(1998, 2001), mk(2097, 2100), mk(1900, 1902)], prop_oneof![1 => Just(0u8), 1 => Just(1u8)]).prop_map(|(gl, mode)| Case { gl, mode, cur: vec![] }).boxed()
+}
+
 fn classify(r: &TaxReport, obs: &mut Obs) {
     let mut mid = false;
     let mut neg = false;
@@ -985,7 +991,12 @@ pub fn check_common(c: &Case, obs: &mut Obs, with_pdf: bool) -> Verdict {
     obs.class(&format!("mode_{}", c.mode));
     let foreign = ledger.iter().any(|t| t.monies().iter().any(|m| !m.is_gbp()));
     obs.class_if(foreign, "foreign_currency_echoes");
-    let cfg = cgt_core::Config::embedded().unwrap_or_default();
+    // embedded exemption table where it covers the ledger's years, the all-years table otherwise
+    // (stratum around the century boundaries: labels 1999/00, 2000/01, 2099/00)
+    let embedded = cgt_core::Config::embedded().unwrap_or_default();
+    let in_table = ledger.iter().filter(|t| matches!(t.op, Op::Sell { .. })).all(|t| embedded.exemptions.contains_key(&(crate::model::tax_year_of(t.date) as u16)));
+    let cfg = if in_table { embedded } else { tool::all_years_config() };
+    obs.class_if(!in_table, "years_outside_the_embedded_table");
     let r = match tool::calc_with(&ledger, None, if foreign { Some(crate::props::c15::fx()) } else { None }, &cfg) {
         Outcome::Ok(r) => r,
         Outcome::Err(_) => {
@@ -1042,8 +1053,14 @@ fn run(ctx: &Ctx) {
     if !ctx.run_prop("text_and_json", RULE, ctx.cases(1500, 160_000), strat, check) {
         return;
     }
+    if !ctx.run_prop("century_boundaries", "as text_and_json, ledgers dated 1998-2001, 2097-2100 and 1900-1902 (all-years exemption table): tax-year labels 1999/00, 2000/01, 2099/00 and dates in every front-end; non-trivial as above", ctx.cases(300, 30_000), strat_century, check) {
+        return;
+    }
     ctx.shrink_iters.store(300, std::sync::atomic::Ordering::Relaxed);
     if !ctx.run_prop("text_json_and_pdf", RULE, ctx.cases(40, 3_000), strat, check_with_pdf) {
+        return;
+    }
+    if !ctx.run_prop("century_boundaries_pdf", "as text_json_and_pdf for the century-boundary ledgers", ctx.cases(6, 400), strat_century, check_with_pdf) {
         return;
     }
     crate::props::proc_checks::c17_mcp(ctx);
@@ -1051,8 +1068,8 @@ fn run(ctx: &Ctx) {
 
 fn replay(name: &str, case: &Value) -> Option<Verdict> {
     match name {
-        "text_and_json" => Some(replay_case::<Case, _>(case, check).unwrap_or_else(Verdict::Fail)),
-        "text_json_and_pdf" => Some(replay_case::<Case, _>(case, check_with_pdf).unwrap_or_else(Verdict::Fail)),
+        "text_and_json" | "century_boundaries" => Some(replay_case::<Case, _>(case, check).unwrap_or_else(Verdict::Fail)),
+        "text_json_and_pdf" | "century_boundaries_pdf" => Some(replay_case::<Case, _>(case, check_with_pdf).unwrap_or_else(Verdict::Fail)),
         other => crate::props::proc_checks::replay(other, case),
     }
 }
